@@ -591,7 +591,7 @@ def r_calls(ctx, toks):
                         a = [P('&', a[0].ws)] + a; a[1].ws = ''; changed = True; fire(ctx, 'arg-addr-member')
                     if pref and len(a) == 1 and a[0].k == 'id' and a[0].t in ctx.env and not ctx.env[a[0].t][1]:
                         a = [P('&', a[0].ws), Tok('id', a[0].t, '')]; changed = True; fire(ctx, 'arg-addr')
-                    elif (not pref) and pty in STRUCT_TYPES and len(a) == 1 and a[0].k == 'id' and a[0].t in ctx.env \
+                    elif (not pref) and (pty in STRUCT_TYPES or pty in ctx.unit.get('classes', ())) and len(a) == 1 and a[0].k == 'id' and a[0].t in ctx.env \
                             and ctx.env[a[0].t] == (pty, True):
                         a = [P('*', a[0].ws), Tok('id', a[0].t, '')]; changed = True; fire(ctx, 'arg-deref')
                     new.append(a)
@@ -1222,12 +1222,27 @@ def r_nstring_cmp(ctx, toks):
     return out
 
 def r_ctor_decl(ctx, toks):
-    """Cls name(args);  ->  Cls name = mk_Cls_<argc>(args);   (direct initialisation of a class-typed local)"""
+    """Cls name(args);  ->  Cls name = mk_Cls_<argc>(args);   (direct initialisation of a class-typed local)
+       Cls a, b;        ->  Cls a = Cls_default(), b = Cls_default();   (default construction, when Cls_default exists)"""
     out = []; i = 0; n = len(toks)
     classes = ctx.unit.get('classes', ())
     while i < n:
         t = toks[i]
         prev = out[-1].t if out else '{'
+        if t.k == 'id' and t.t in classes and prev in (';', '{', '}') and (t.t + '_default') in ctx.sigs and i + 2 < n and toks[i + 1].k == 'id' and toks[i + 2].t in (',', ';'):
+            j = i + 1; names = []
+            while toks[j].k == 'id' and toks[j + 1].t in (',', ';'):
+                names.append(toks[j]); 
+                if toks[j + 1].t == ';': break
+                j += 2
+            if toks[j + 1].t == ';':
+                out.append(t)
+                for q, nm in enumerate(names):
+                    if q: out.append(P(',', ''))
+                    out.extend([nm, P('='), Tok('id', t.t + '_default', ' '), P('(', ''), P(')', '')])
+                    ctx.env[nm.t] = (t.t, False)
+                out.append(P(';', ''))
+                i = j + 2; fire(ctx, 'default-ctor'); continue
         if t.k == 'id' and t.t in classes and prev in (';', '{', '}') and i + 2 < n and toks[i + 1].k == 'id' and toks[i + 2].t == '(':
             e = match_close(toks, i + 2)
             if e + 1 < n and toks[e + 1].t == ';':
